@@ -188,6 +188,10 @@ def c04_obs(desc, rec):
                                                    if isinstance(v.get("lb"), list)):
         # a task with tens or hundreds of variables: the event budget is a budget, not evidence of non-termination
         return out
+    if rec.step_limit and not rec.deadlock and (rec.steps or 0) >= 2:
+        # the event budget ran out while cycles were still being completed (bit-string optimizers draw per bit: long
+        # runs are expensive): a budget, not evidence of non-termination
+        return out
     if rec.step_limit or rec.deadlock:
         out.append({"cls": [opt, "no_termination"], "msg": f"step cap / deadlock: step_limit={rec.step_limit} "
                                                            f"deadlock={rec.deadlock}"})
